@@ -6,6 +6,7 @@ CONSTANTS
   Paths = @@PATHS@@
   Kinds = @@KINDS@@
   InitClosed = @@INITCLOSED@@
+  SplitClose = @@SPLIT@@
 INVARIANT Inv
 VIEW MCView
 CHECK_DEADLOCK FALSE
